@@ -248,13 +248,66 @@ func (g *dgen) requiredOrDefault(f *spec.Attr) {
 		g.feat("required")
 	case 3:
 		rk := g.d.Resolve(f.Type).Kind
-		if f.Type.Kind != spec.User && spec.IsPrimitive(rk) && rk != spec.Bytes && rk != spec.Any {
+		if f.Type.Kind == spec.User {
+			return
+		}
+		switch {
+		case spec.IsPrimitive(rk) && rk != spec.Bytes && rk != spec.Any:
 			if dv := g.defaultFor(f, rk); dv != nil {
+				f.Default, f.HasDef = dv, true
+				g.feat("default:" + rk)
+				if t.Draw("req+default", 3) == 0 {
+					f.Required = true
+					g.feat("required+default")
+				}
+			}
+		case rk == spec.Array || rk == spec.Map:
+			// a collection default (only collections of plain primitives, which Default() accepts as typed Go values)
+			rt := g.d.Resolve(f.Type)
+			ok := func(a *spec.Attr) bool {
+				k := a.Type.Kind
+				return spec.IsPrimitive(k) && k != spec.Bytes && k != spec.Any
+			}
+			if !ok(rt.Elem) || rk == spec.Map && rt.Key.Type.Kind != spec.String {
+				return
+			}
+			tt := verifsim.LenientTape(nil)
+			v := GenValid(tt, g.d, f, GenOpts{Loc: LocBody, NonEmpty: true})
+			if dv := jsonable(v); dv != nil {
 				f.Default, f.HasDef = dv, true
 				g.feat("default:" + rk)
 			}
 		}
 	}
+}
+
+// jsonable turns a model collection into the plain data a spec file holds.
+func jsonable(v any) any {
+	switch x := v.(type) {
+	case []any:
+		if len(x) == 0 {
+			return nil
+		}
+		out := make([]any, len(x))
+		for i, e := range x {
+			out[i] = jsonable(e)
+		}
+		return out
+	case *MapVal:
+		if x == nil || len(x.K) == 0 {
+			return nil
+		}
+		out := map[string]any{}
+		for i, k := range x.K {
+			out[fmt.Sprint(k)] = jsonable(x.V[i])
+		}
+		return out
+	case int64:
+		return float64(x)
+	case uint64:
+		return float64(x)
+	}
+	return v
 }
 
 // defaultFor picks a default that satisfies the attribute's validation.
